@@ -39,7 +39,7 @@ CLAIMED = {
             "C semantics of restrict/automatic storage trusted; corpus-bounded over programs.", "per-kernel obligations over the LNodes program", "4 C07"),
     "C08": ("proof", "accessor contracts give in-range indices symbolically (E1); every array access of every corpus kernel proved inside "
             "the extents computed from UFL + ufcx.h, for all iterations and all valid entity/permutation values; cell kernels never "
-            "dereference entity/permutation pointers (E2).",
+            "dereference entity/permutation pointers (E2); E3 tables (bounded): run-time contract on build_optimized_tables - permutation axis has 1 or the full number of codes, offsets as specified.",
             "Corpus-bounded over programs; extents oracle from UFL form data; A-INT.", "sidecar contracts + VC generation (z3); per-kernel SMT interval obligations", "4 C08"),
     "C09": ("proof", "dtype->C type maps, REAL/SCALAR type names, math-function names for every emittable function x 4 scalar types x "
             "argument type against the C99 naming scheme, complex literal form (exhaustive on the real formatter); merge_dtypes and "
@@ -64,10 +64,10 @@ CLAIMED = {
             "syntactic information-flow obligations over the AST + subprocess regeneration (bounded)", "4 C12"),
     "C13": ("proof", "_compute_option_signature injective on all 256 settings of the code-selecting options and independent of insertion "
             "order (exhaustive, real function); compute_signature separates sampled forms/tags/point sets; names are identifiers; object "
-            "names distinct in every corpus module (bounded).",
-            "sha1 and UFL signatures external; cross-process stability exercised by the C12 replay only.",
+            "names distinct in every corpus module (bounded); names of 40 sampled requests equal in a fresh process and after a history of released objects, incl. expressions over two meshes created in opposite orders (bounded).",
+            "sha1 and UFL signatures external.",
             "exhaustive finite enumeration on the real functions + bounded pair checks", "4 C13"),
-    "C18": ("proof", "numba formatter round trip for every constructible depth-2 tree (exhaustive, Python ast); integral_data contract "
+    "C18": ("proof", "numba formatter round trip for every constructible depth-2 tree and for the depth-3 family operator pair x sensitive child (exhaustive, Python ast); integral_data contract "
             "(shared with C); numba module valid Python, descriptors equal to the C module's, declared array sizes cover the UFCx extents "
             "on every corpus file (bounded).",
             "Numeric equality of kernels and numba compilation not decided; math-function spelling of the numba formatter (np.*) not checked.",
@@ -84,14 +84,14 @@ CLAIMED = {
             "Fault model and whitelist of total calls listed in the evidence; cffi's own rebuild behaviour not decided.",
             "effect-trace contracts discharged by exhaustive path enumeration of the real source (E1 effect mode)", "4 C15"),
     "C16": ("proof", "every constructible (parent class, operand position, child class) depth-2 tree of the real class table is formatted "
-            "by the real C and numba formatters and parsed back with pycparser / Python ast to the same tree (exhaustive); literal "
-            "precision p decided arithmetically (5*10^-p <= 2^-53).",
-            "L-UNPARSE (depth-2 => all trees) is pen-and-paper; its premise (the text is op between the children in order, each child "
+            "by the real C and numba formatters and parsed back with pycparser / Python ast to the same tree (exhaustive); the same for the depth-3 family (operator pair x children whose text starts/ends with a parenthesis, sign or operator; all children in the thorough tier); literal "
+            "precision p decided arithmetically (5*10^-p <= 2^-53) and by reading back the real formatter's output for each of the four scalar types on a witness family.",
+            "L-UNPARSE (depth-3 => all trees) is pen-and-paper; its premise (the text is op between the children in order, each child "
             "optionally parenthesised, the choice fixed by the classes) is discharged by E1 for every expression handler of both "
             "formatters; pycparser/CPython grammars trusted.",
             "exhaustive finite enumeration on the real formatters with independent parsers", "4 C16"),
     "C20": ("proof", "option precedence of get_options proved key-wise (E1, structurally bounded key set, not counted); the CLI forwards an "
-            "option as priority iff given (exhaustive over all options and pairs, real argparse parser); CLI and JIT use the same "
+            "option as priority iff given (exhaustive over all options with every choice / default / other / falsy value and pairs, real argparse parser); CLI and JIT use the same "
             "compile entry (syntactic); header/source pairing and aliases on every corpus module (bounded).",
             "argparse external; stand-alone compilation and numeric equality with the JIT not decided.",
             "VC generation from the Python AST (z3) + exhaustive finite enumeration on the real CLI parser", "4 C20"),
@@ -141,8 +141,8 @@ def main():
                  kind_free_text="E1: symbolic interpreter over the Python AST of the real functions, sidecar contracts, z3/cvc5"),
             dict(name="kernelvc", path="kernelvc/", serves_properties=["C01", "C02", "C03", "C04", "C05", "C07", "C08", "C19"],
                  kind_free_text="E2: SMT obligations over each LNodes kernel the real generators produce for a corpus of forms"),
-            dict(name="runtime", path="runtime/", serves_properties=["C04", "C05", "C06", "C09", "C10", "C12", "C13", "C16", "C18", "C19", "C20"],
-                 kind_free_text="E3: run-time descriptor contracts on corpus modules (bounded; never counted as proved)"),
+            dict(name="runtime", path="runtime/", serves_properties=["C01", "C02", "C03", "C04", "C05", "C06", "C09", "C10", "C11", "C12", "C13", "C16", "C17", "C18", "C19", "C20"],
+                 kind_free_text="E3: run-time contracts (bounded; never counted as proved): descriptor parse-back, kernel interpreter vs independent UFL/basix reference, option/numbering metamorphic checks, optimizer translation validation, determinism replay"),
         ],
         checks=checks,
         notes="Contract-based deductive verification; see DESIGN.md. Exit codes: 0 held, 1 violation, 2 undecided, 3 checker error.",
